@@ -2,7 +2,7 @@
 operand-kind flow through the evaluation actions, refusal checks reached."""
 import ast
 
-from ..astq import Facts, conds, expand, is_name, kwarg, parse_fixture, returns_of
+from ..astq import Facts, conds, ends_in_jump, expand, facts_of, is_name, kwarg, parse_fixture, returns_of
 from ..callgraph import CallGraph
 from ..core import AnalysisError, norm, walk_local, dotted
 
@@ -347,17 +347,25 @@ def run(repo, chk):
                        f"`{norm(n)}` may raise ValueError: the word is not guaranteed to be a complete numeric literal (needs re.fullmatch with a purely numeric pattern on the same variable)")
     # syntax errors carry a position
     se = repo.func("opparse.Location.syntax_error")
-    t = norm(se.node)
-    chk.ob("R18.1", "opparse.Location.syntax_error:carries-position", "err.offset = self.start + 1" in t and "return err" in t, se.where,
+    fse = facts_of(se)
+    errs = [e for e in fse.bound_to("SyntaxError(msg)") if fse.has(f"return {e}", exactly=[])]
+    chk.ob("R18.1", "opparse.Location.syntax_error:carries-position", len(errs) == 1 and fse.has(f"{errs[0]}.offset = self.start + 1", exactly=[]), se.where,
            "syntax errors carry the offending position")
     ev = repo.func("selector.Evaluator.__call__")
     fev = Facts(ev.node)
-    ok = any(t.startswith("raise ") and ".location.syntax_error(" in t and "self.actions.get(key, None) is None" in c for t, c, _ in fev.items) \
-        and all("self.actions.get(key, None) is not None" in c for t, c, n in fev.items if isinstance(n, ast.Call) and t.startswith("self.actions.get(key, None)("))
+    acts = fev.bound_to("self.actions.get(key, None)") + fev.bound_to("self.actions.get(key)")
+    act = acts[0] if len(acts) == 1 else "<no single name bound to self.actions.get(key)>"
+    applied = [c for t, c, n in fev.items if isinstance(n, ast.Call) and is_name(n.func, act)]
+    ok = any(t.startswith("raise ") and ".location.syntax_error(" in t and f"{act} is None" in c for t, c, _ in fev.items) \
+        and bool(applied) and all(f"{act} is not None" in c for c in applied)
     chk.ob("R18.1", "selector.Evaluator.__call__:unknown-operator-is-a-syntax-error", ok, ev.where,
            "an operator shape without a registered action is reported as a located syntax error")
     rs = repo.func("opparse.OperatorPrecedenceTower.resolve")
-    chk.ob("R18.1", "opparse.OperatorPrecedenceTower.resolve:unknown-token-is-a-syntax-error", "raise op.location.syntax_error(" in norm(rs.node), rs.where,
+    frs = facts_of(rs)
+    known = ["op.value in self.operators", "f': {op.type}' in self.operators"]
+    ok = ends_in_jump(rs.node.body) and any(isinstance(n, ast.Raise) and not set(known) & set(c) for t, c, n in frs.starting("raise op.location.syntax_error(")) \
+        and all(isinstance(n, (ast.Return, ast.Raise)) or not isinstance(n, ast.stmt) or isinstance(n, ast.Expr) for _, _, n in frs.items)
+    chk.ob("R18.1", "opparse.OperatorPrecedenceTower.resolve:unknown-token-is-a-syntax-error", ok, rs.where,
            "a token without priority (stray character, unknown type) is reported as a located syntax error")
 
     # the lexer never drops input silently and keeps positions
@@ -421,30 +429,48 @@ def run(repo, chk):
 
     # ---------------- R18.3
     pi = repo.func("probe.Probe.__init__")
-    t = norm(pi.node)
-    chk.ob("R18.3", "probe.Probe.__init__:every-selector-compiled", "self._selectors = [select(s, env=env) for s in selectors]" in t, pi.where, "every selector string is compiled when the probe is created")
-    chk.ob("R18.3", "probe.Probe.__init__:every-selector-gets-a-rule", "self._make_rule(sel, probe_type) for sel in self._selectors" in t, pi.where, "every compiled selector goes through _make_rule (focus checks) at construction")
+    fpi = facts_of(pi)
+    chk.ob("R18.3", "probe.Probe.__init__:every-selector-compiled", fpi.has("self._selectors = [select(s, env=env) for s in selectors]", when=["selectors"]), pi.where,
+           "every selector string is compiled when the probe is created")
+    chk.ob("R18.3", "probe.Probe.__init__:every-selector-gets-a-rule", fpi.mentions("[self._make_rule(sel, probe_type) for sel in self._selectors]"), pi.where,
+           "every compiled selector goes through _make_rule (focus checks) at construction")
     me = repo.func("probe.Probe._make_emitter")
-    tm = norm(me.node)
-    chk.ob("R18.3", "probe.Probe._make_emitter:focus-pattern-check", "if not tags or tags == {1}:" in tm and "elif tags == {1, 2}:" in tm and "raise ValueError(" in tm, me.where,
+    fme = facts_of(me)
+    T = (fme.bound_to("set(sel.all_tags)") or ["set(sel.all_tags)"])[0]
+    refused = [c for _, c, n in fme.starting("raise ValueError(") if isinstance(n, ast.Raise)]
+    ok = fme.has("return self._emit", exactly=[f"not {T} or {T} == {{1}}"]) and len(fme.find("return self._emit")) == 1 \
+        and fme.has("return self._emit2", when=[f"{T} == {{1, 2}}"]) and len(fme.find("return self._emit2")) == 1 and len(refused) == 1 \
+        and {T, f"{T} != {{1}}", f"{T} != {{1, 2}}"} <= set(refused[0]) and ends_in_jump(me.node.body)
+    chk.ob("R18.3", "probe.Probe._make_emitter:focus-pattern-check", ok, me.where,
            "focus patterns other than none / ! / ! with !! (e.g. !! alone) are refused with ValueError")
     for cls in ("probe.Probe", "probe.OverridableProbe"):
         mr = repo.func(f"{cls}._make_rule")
-        chk.ob("R18.3", f"{cls}._make_rule:reaches-_make_emitter", "self._make_emitter(sel)" in norm(mr.node), mr.where, "the rule is built around the checked emitter")
+        chk.ob("R18.3", f"{cls}._make_rule:reaches-_make_emitter", facts_of(mr).mentions("self._make_emitter(sel)"), mr.where, "the rule is built around the checked emitter")
     om = repo.func("probe.OverridableProbe._make_rule")
-    chk.ob("R18.3", "probe.OverridableProbe._make_rule:refuses-focus-free", any(isinstance(n, ast.Raise) for n in walk_local(om.node)) and
-           "sel.focus or probe_type == 'immediate'" in norm(om.node), om.where, "an overridable probe on a selector without focus is refused at construction")
+    fom = facts_of(om)
+    made = [c for _, c, n in fom.starting("return Immediate(") if isinstance(n, ast.Return)]
+    ok = ends_in_jump(om.node.body) and bool(made) and all("probe_type == 'immediate' or sel.focus" in c for c in made) \
+        and any(isinstance(n, ast.Raise) for _, _, n in fom.items) and len([r for r in returns_of(om.node)]) == len(made)
+    chk.ob("R18.3", "probe.OverridableProbe._make_rule:refuses-focus-free", ok, om.where, "an overridable probe on a selector without focus is refused at construction")
     rv = repo.func("selector._resolve")
-    chk.ob("R18.3", "selector._resolve:category-must-be-a-tag", "if category is not None and (not isinstance(category, Tag)): raise TypeError(" in norm(rv.node), rv.where,
+    frv = facts_of(rv)
+    cat = (frv.bound_to("_eval(selector.category, env)") or ["_eval(selector.category, env)"])[0]
+    ok = any(isinstance(n, ast.Raise) and {f"{cat} is not None", f"not isinstance({cat}, Tag)"} <= set(c) for _, c, n in frv.starting("raise TypeError("))
+    chk.ob("R18.3", "selector._resolve:category-must-be-a-tag", ok, rv.where,
            "a category that is not a tag is refused with the documented TypeError")
     dr = repo.func("selector.dict_resolver.resolve")
-    td = norm(dr.node)
-    chk.ob("R18.3", "selector.dict_resolver.resolve:unresolvable-name", "raise SelectorError(f\"Could not resolve '{start}'.\")" in td, dr.where, "an unknown function name is refused with SelectorError")
+    fdr = facts_of(dr)
+    ok = any(isinstance(n, ast.Raise) and "start not in env" in c for _, c, n in fdr.starting("raise SelectorError("))
+    chk.ob("R18.3", "selector.dict_resolver.resolve:unresolvable-name", ok, dr.where, "an unknown function name is refused with SelectorError")
     sl = repo.func("selector._select")
-    chk.ob("R18.3", "selector._select:single-call-path", any(isinstance(n, ast.Raise) and "SelectorError" in norm(n) for n in walk_local(sl.node)), sl.where,
+    fsl = facts_of(sl)
+    ok = any(isinstance(n, ast.Raise) and "not isinstance(selector, Call)" in c for _, c, n in fsl.starting("raise SelectorError(")) \
+        and all("isinstance(selector, Call)" in c for _, c, n in fsl.starting("return ") if isinstance(n, ast.Return))
+    chk.ob("R18.3", "selector._select:single-call-path", ok, sl.where,
            "a selector that is not a single call path (a comma sequence) is refused with SelectorError")
     pr = repo.func("selector.Call.problems")
-    chk.ob("R18.3", "selector.Call.problems:unknown-meta-variable", "x.name not in _valid_hashvars" in norm(pr.node), pr.where, "an unknown #meta variable is reported at verification (activation)")
+    ok = any("x.name not in _valid_hashvars" in c and "x.name.startswith('#')" in c for _, c, n in facts_of(pr).starting("problems.append("))
+    chk.ob("R18.3", "selector.Call.problems:unknown-meta-variable", ok, pr.where, "an unknown #meta variable is reported at verification (activation)")
     at = repo.func("overlay.autotool")
     chk.ob("R18.3", "overlay.autotool:verify-reached", any(isinstance(c, ast.Call) and is_name(c.func, "verify") for c in ast.walk(at.node)), at.where, "activation verifies the selector (see C10 R10.5)")
 
